@@ -94,6 +94,7 @@ impl Printer {
         }
         self.indent = 1;
         self.emit("{", None);
+        self.emit("/*@probe*/", None);
         self.newline();
         self.indent = 2;
         self.stream(ts, spec)?;
@@ -222,6 +223,9 @@ impl Printer {
                 }
             }
             self.emit("{", None);
+            if start == 4 {
+                self.emit("/*@probe*/", None);
+            }
             self.newline();
             self.indent += 1;
             let rest: TokenStream = inner.into_iter().skip(start).collect();
